@@ -97,6 +97,8 @@ def g2_ties(rng, big=False):
     cands = list(range(1, nc + 1))
     m = rng.choice([1, 1, 2, 3])
     lines = []
+    if rng.random() < 0.08:
+        return g2c_three_way_surplus_tie(rng, big)
     mode = rng.randint(0, 4)
     if mode == 4 and nc >= 5:
         # three (or four) candidates level at an exclusion, two of whom shared the lowest tally at the most recent earlier
@@ -155,6 +157,33 @@ def g2_ties(rng, big=False):
                     lines.append((rng.randint(3, 8), [o] + rand_ranking(rng, cands, 0, 2)))
         lines = [(mm, dedupe(r)) for mm, r in lines]
     s = base(nc, ns, lines, rng)
+    s['family'] = 'G2'
+    return make_valid(s, rng)
+
+
+def g2c_three_way_surplus_tie(rng, big=False):
+    """
+    three candidates level for "largest surplus", two of whom shared the top at the most recent stage where the three
+    differed: A (2q votes, transfer value exactly 1/2) lifts Z to the tally X and Y already hold; whether X's or Y's
+    surplus goes first decides who reaches the quota next
+    """
+    seats = 6
+    q = rng.randint(12, 30)
+    d = rng.randint(1, 3)
+    h = rng.randint(d + 1, min(q - 2, 9))           # half of the papers A passes to Z
+    r = rng.randint(0, 5)
+    fg = q - 6 - 3 * d + h + r
+    if fg < 2:
+        fg = 2
+    f = fg // 2
+    g = fg - f
+    order = rng.sample(range(1, 8), 7)
+    A, X, Y, Z, E, F, G = order
+    lines = [(2 * h, [A, Z]), (2 * q - 2 * h, [A]), (q + d, [X, E]), (q + d, [Y, E, F]), (q + d - h, [Z, G]),
+             (q - 1, [E]), (f, [F]), (g, [G])]
+    if rng.random() < 0.5:
+        rng.shuffle(lines)
+    s = base(7, seats, lines, rng)
     s['family'] = 'G2'
     return make_valid(s, rng)
 
